@@ -182,7 +182,6 @@ impl PageCache {
         }
 
         self.cursor = 0;
-        self.capacity = 0;
         remaining_frames
     }
 }
